@@ -21,6 +21,11 @@ return value is serialised.
 import ast, os
 
 try:
+    from . import c14norm
+except Exception:
+    import c14norm
+
+try:
     from . import TranslateError
 except Exception:                                      # stand-alone use (tests)
     class TranslateError(Exception):
@@ -196,9 +201,18 @@ class Fn(object):
         # ctx.fire_event('lit')
         if isinstance(f, ast.Attribute) and f.attr == 'fire_event':
             if self.is_ctx(f.value):
-                ev = self.event_literal(c, 0)
                 if len(c.args) != 1 or c.keywords:
                     self.err(c, 'fire_event with extra arguments')
+                a0 = c.args[0]
+                if isinstance(a0, ast.IfExp):
+                    # ctx.fire_event('a' if <tracked test> else 'b')  ==  if <test>: fire 'a' else: fire 'b'
+                    cd = self.cond(a0.test)
+                    if cd[0] != 'c':
+                        self.err(c, 'event name chosen by a test the model does not track')
+                    pick = lambda n: EVENTS[n.value] if isinstance(n, ast.Constant) and isinstance(n.value, str) \
+                        and n.value in EVENTS else self.err(c, 'event name is not a known string literal')
+                    return ('If', cd[1], ('Fire', pick(a0.body)), ('Fire', pick(a0.orelse)))
+                ev = self.event_literal(c, 0)
                 return ('Fire', ev)
             base = unparse(f.value)
             tgt = None
@@ -943,6 +957,19 @@ class Translator(object):
         return self.define('g_h_' + attr, build)
 
     # ---- small tables
+    def matches(self, fn, refs, consts=None, what=''):
+        """index of the reference implementation (source text) that fn equals up to the
+        behaviour-preserving normalisation of translate/c14norm.py"""
+        try:
+            got = c14norm.normal(fn, consts)
+            for i, r in enumerate(refs):
+                if got == c14norm.normal_src(r, consts):
+                    return i
+        except c14norm.NormError as e:
+            raise TranslateError('%s: %s' % (what, e))
+        raise TranslateError('%s: not (a behaviour-preserving rewrite of) the transcribed function; '
+                             'normal form:\n%s' % (what, got))
+
     def ctx_fire_parts(self):
         """MethodContext.fire_event: which managers, in which order"""
         fn = self.class_member('spyne/context.py', 'MethodContext', 'fire_event')
@@ -951,30 +978,24 @@ class Translator(object):
         for c in ('HttpMethodContext', 'WsgiMethodContext'):
             if self.class_member(self.ctx_classes[c][0], c, 'fire_event') is not None:
                 raise TranslateError('%s overrides fire_event' % c)
-        if [a.arg for a in fn.args.args] != ['self', 'event'] or fn.args.vararg is None or fn.args.kwarg is None:
-            raise TranslateError('MethodContext.fire_event: unexpected signature')
-        va, kw = fn.args.vararg.arg, fn.args.kwarg.arg
-        call_app = 'self.app.event_manager.fire_event(event, self, *%s, **%s)' % (va, kw)
-        parts = []
-        body = [s for s in fn.body if not (isinstance(s, ast.Expr) and isinstance(s.value, ast.Constant))]
-        i = 0
-        while i < len(body):
-            s = body[i]
-            txt = unparse(s)
-            if txt == call_app:
-                parts.append('PApp')
-                i += 1
-                continue
-            if txt == 'desc = self.descriptor' and i + 1 < len(body):
-                nxt = unparse(body[i + 1])
-                want = ('if desc is not None:\n    for evmgr in desc.event_managers:\n'
-                        '        evmgr.fire_event(event, self, *%s, **%s)' % (va, kw))
-                if nxt == want:
-                    parts.append('PDesc')
-                    i += 2
-                    continue
-            raise TranslateError('MethodContext.fire_event: unrecognised statement: %s' % txt[:100])
-        return parts
+        app_first = """
+def fire_event(self, event, *args, **kwargs):
+    self.app.event_manager.fire_event(event, self, *args, **kwargs)
+    desc = self.descriptor
+    if desc is not None:
+        for evmgr in desc.event_managers:
+            evmgr.fire_event(event, self, *args, **kwargs)
+"""
+        desc_first = """
+def fire_event(self, event, *args, **kwargs):
+    desc = self.descriptor
+    if desc is not None:
+        for evmgr in desc.event_managers:
+            evmgr.fire_event(event, self, *args, **kwargs)
+    self.app.event_manager.fire_event(event, self, *args, **kwargs)
+"""
+        i = self.matches(fn, [app_first, desc_first], what='MethodContext.fire_event')
+        return [['PApp', 'PDesc'], ['PDesc', 'PApp']][i]
 
     def desc_parts(self):
         """MethodDescriptor.__init__: what goes into event_managers, in order; and nothing else in
@@ -988,7 +1009,9 @@ class Translator(object):
             if not any(isinstance(x, ast.Attribute) and x.attr == 'event_managers' for x in ast.walk(st)):
                 continue
             txt = unparse(st)
-            if txt == 'self.event_managers = event_managers':
+            params = [a.arg for a in fn.args.args]
+            if isinstance(st, ast.Assign) and len(st.targets) == 1 and unparse(st.targets[0]) == 'self.event_managers' \
+                    and isinstance(st.value, ast.Name) and st.value.id in params:
                 if parts:
                     raise TranslateError('MethodDescriptor.__init__: event_managers assigned after use')
                 parts.append('DMeth')
@@ -1001,10 +1024,11 @@ class Translator(object):
                 raise TranslateError('MethodDescriptor.__init__: unrecognised event_managers statement: %s' % txt[:120])
         if parts != ['DMeth', 'DSvc']:
             raise TranslateError('MethodDescriptor.__init__: event_managers is built as %r' % parts)
-        if 'event_managers' not in [a.arg for a in fn.args.args]:
-            raise TranslateError('MethodDescriptor.__init__: no event_managers parameter')
         # every other occurrence of the attribute in the package must be a plain read in
         # MethodContext.fire_event (checked by ctx_fire_parts) — no stores, no mutating calls
+        cfe = self.class_member('spyne/context.py', 'MethodContext', 'fire_event')   # shape pinned by ctx_fire_parts
+        if not isinstance(cfe, ast.FunctionDef):
+            raise TranslateError('MethodContext.fire_event not found')
         root = os.path.join(self.repo, 'spyne')
         for d, _, fs in os.walk(root):
             if os.sep + 'test' in d[len(root):]:
@@ -1024,7 +1048,7 @@ class Translator(object):
                     if isinstance(x, ast.Attribute) and x.attr == 'event_managers':
                         ok = (rel == 'spyne/descriptor.py' and fn.lineno <= x.lineno <= fn.end_lineno) or \
                              (rel == 'spyne/context.py' and isinstance(x.ctx, ast.Load)
-                              and unparse(x) == 'desc.event_managers')
+                              and cfe.lineno <= x.lineno <= cfe.end_lineno)
                         if not ok:
                             raise TranslateError('%s:%d: a descriptor\'s event_managers is used outside '
                                                  'MethodDescriptor.__init__ / MethodContext.fire_event: %s'
@@ -1032,46 +1056,90 @@ class Translator(object):
         return parts
 
     def evmgr_shape(self):
-        """EventManager.add_listener / fire_event, oset.add, ServiceBaseMeta.__get_base_event_handlers:
-        the shapes the hand-written definitions of Model.v transcribe"""
+        """EventManager.add_listener / fire_event, oset.add / extend / __iter__,
+        ServiceBaseMeta.__get_base_event_handlers: the functions the hand-written definitions of
+        Model.v transcribe, compared up to behaviour-preserving rewrites (c14norm)"""
         k = 'spyne/evmgr.py'
         fe = self.class_member(k, 'EventManager', 'fire_event')
         al = self.class_member(k, 'EventManager', 'add_listener')
         if not isinstance(fe, ast.FunctionDef) or not isinstance(al, ast.FunctionDef):
             raise TranslateError('EventManager.fire_event / add_listener not found')
-        def body(fn):
-            return [unparse(s) for s in fn.body if not (isinstance(s, ast.Expr) and isinstance(s.value, ast.Constant))]
-        if body(fe) != ['handlers = self.handlers.get(event_name, oset())',
-                        'for handler in handlers:\n    handler(ctx, *args, **kwargs)']:
-            raise TranslateError('EventManager.fire_event: not the transcribed loop: %r' % body(fe))
-        if body(al) != ['handlers = self.handlers.get(event_name, oset())', 'handlers.add(handler)',
-                        'self.handlers[event_name] = handlers']:
-            raise TranslateError('EventManager.add_listener: not the transcribed body: %r' % body(al))
-        # oset.add: append at the end unless present; __iter__: from the front
-        ok = self.class_member('spyne/util/oset.py', 'oset', 'add')
-        it = self.class_member('spyne/util/oset.py', 'oset', '__iter__')
+        self.matches(fe, ["""
+def fire_event(self, event_name, ctx, *args, **kwargs):
+    handlers = self.handlers.get(event_name, oset())
+    for handler in handlers:
+        handler(ctx, *args, **kwargs)
+"""], what='EventManager.fire_event')
+        self.matches(al, ["""
+def add_listener(self, event_name, handler):
+    handlers = self.handlers.get(event_name, oset())
+    handlers.add(handler)
+    self.handlers[event_name] = handlers
+"""], what='EventManager.add_listener')
+        # oset: a doubly linked list [key, prev, next] with a sentinel; add appends unless present,
+        # extend is the same loop, __iter__ walks from the front
+        orel = 'spyne/util/oset.py'
+        consts = c14norm.module_int_constants(self.tree(orel))
+        if [consts.get(n) for n in ('KEY', 'PREV', 'NEXT')] != [0, 1, 2]:
+            raise TranslateError('oset: KEY/PREV/NEXT are not 0/1/2: %r' % consts)
+        ok = self.class_member(orel, 'oset', 'add')
+        it = self.class_member(orel, 'oset', '__iter__')
+        ex = self.class_member(orel, 'oset', 'extend')
         if not isinstance(ok, ast.FunctionDef) or not isinstance(it, ast.FunctionDef):
             raise TranslateError('oset.add / __iter__ not found')
-        consts = [unparse(n) for n in self.tree('spyne/util/oset.py').body
-                  if isinstance(n, ast.Assign) and 'PREV' in unparse(n)]
-        if consts != ['KEY, PREV, NEXT = list(range(3))']:
-            raise TranslateError('oset: KEY/PREV/NEXT are not 0/1/2: %r' % consts)
-        if body(ok) != ['if key not in self.map:\n    end = self.end\n    curr = end[PREV]\n'
-                        '    curr[NEXT] = end[PREV] = self.map[key] = [key, curr, end]']:
-            raise TranslateError('oset.add: not the transcribed body: %r' % body(ok))
-        if body(it) != ['end = self.end', 'curr = end[NEXT]',
-                        'while curr is not end:\n    yield curr[KEY]\n    curr = curr[NEXT]']:
-            raise TranslateError('oset.__iter__: not the transcribed body: %r' % body(it))
+        add_refs = ["""
+def add(self, key):
+    if key not in self.map:
+        end = self.end
+        curr = end[1]
+        curr[2] = end[1] = self.map[key] = [key, curr, end]
+"""]
+        self.matches(ok, add_refs, consts, what='oset.add')
+        self.matches(it, ["""
+def __iter__(self):
+    end = self.end
+    curr = end[2]
+    while curr is not end:
+        yield curr[0]
+        curr = curr[2]
+"""], consts, what='oset.__iter__')
         gb = self.class_member('spyne/service.py', 'ServiceBaseMeta', '__get_base_event_handlers')
         if not isinstance(gb, ast.FunctionDef):
             raise TranslateError('ServiceBaseMeta.__get_base_event_handlers not found')
-        if body(gb) != ['handlers = {}',
-                        "for base in cls_bases:\n    evmgr = getattr(base, 'event_manager', None)\n"
-                        "    if evmgr is None:\n        continue\n"
-                        "    for k, v in evmgr.handlers.items():\n        handler = handlers.get(k, oset())\n"
-                        "        for h in v:\n            handler.add(h)\n        handlers[k] = handler",
-                        'return handlers']:
-            raise TranslateError('ServiceBaseMeta.__get_base_event_handlers: not the transcribed body: %r' % body(gb))
+        with_add = """
+def get(self, cls_bases):
+    handlers = {}
+    for base in cls_bases:
+        evmgr = getattr(base, 'event_manager', None)
+        if evmgr is None:
+            continue
+        for k, v in evmgr.handlers.items():
+            handler = handlers.get(k, oset())
+            for h in v:
+                handler.add(h)
+            handlers[k] = handler
+    return handlers
+"""
+        with_extend = with_add.replace("""            for h in v:
+                handler.add(h)
+""", """            handler.extend(v)
+""")
+        if self.matches(gb, [with_add, with_extend], what='ServiceBaseMeta.__get_base_event_handlers') == 1:
+            # extend(keys) must be the add loop
+            if not isinstance(ex, ast.FunctionDef):
+                raise TranslateError('oset.extend not found')
+            self.matches(ex, ["""
+def extend(self, keys):
+    for key in keys:
+        if key not in self.map:
+            end = self.end
+            curr = end[1]
+            curr[2] = end[1] = self.map[key] = [key, curr, end]
+""", """
+def extend(self, keys):
+    for key in keys:
+        self.add(key)
+"""], consts, what='oset.extend')
         return True
 
     PROTOCOLS = [
